@@ -11,7 +11,7 @@
    The subscriber slots are fixed at 3 per component (Model.nslots, IpoeModel: three slots): theorems quantify over
    every slot index, the bound is that of the model, not of a theorem.  [vrep v = false] is the code before the
    fixes; only [_refuted] witnesses speak about it. *)
-From OV Require Import Common.Base C03.Model C03.Proofs C03.GateDefs C03.GateInv C03.GateMain C03.GateReject C03.GateObs.
+From OV Require Import Common.Base C03.Model C03.Proofs C03.GateDefs C03.GateInv C03.GateMain C03.GateReject C03.GateObs C03.GateLeak.
 
 (* Outside the Network/Open phases an IPCP, IPv6CP or IPv6 (RS / NS / DHCPv6 SOLICIT / DHCPv6 REQUEST) frame changes
    nothing and produces no output: internal/ppp/dispatcher.go inNetworkPhase.  (Every state, every variant; the
@@ -276,24 +276,45 @@ Example C03_dataplane_failure_nonvacuous :
 Proof. intros v evs st. repeat match goal with |- _ /\ _ => split end; timeout 20 (vm_compute; reflexivity). Qed.
 Print Assumptions C03_dataplane_failure_nonvacuous.
 
-(* Trying to prove "on the repaired code a torn-down session owns nothing ([leaks] = false)" refuted it for /repo HEAD
-   ([vnm] = false, known finding pppoe-dhcpv6-rereserve-drops-pool-name): subscriber 1 solicits while the only IA_NA
+(* Trying to prove "on the repaired code a torn-down session owns nothing ([leaks] = false)" refuted it for the code
+   before 277708f ([vnm] = false, fixed finding pppoe-dhcpv6-rereserve-drops-pool-name): subscriber 1 solicits while the only IA_NA
    address is taken (a prefix is resolved and leased with its pool name), the address comes back, it solicits again: the
    address is resolved, the provider reserves both again and the prefix lease forgets its pool; PADT before any REPLY then
-   returns the address but not the prefix.  With [vnm] (fixes/C03_dhcp6_rereserve_keeps_pool_name.patch) it returns both.
+   returned the address but not the prefix.  Since 277708f ([vnm]) it returns both.
    The general theorem is still open: it needs the invariant "accepted and live => still Network/Open" in GateInv. *)
 Definition ev_relate :=
   let up i k := [EvOpen i; EvFrame i (FrLcp (FCreq QGood)); EvFrame i (FrLcp (FCack true)); EvFrame i FrChapResp; EvAAA k AAcc;
                  EvFrame i (FrIp6cp (FCreq QGood)); EvFrame i (FrIp6cp (FCack true))] in
   up 0 1 ++ up 1 2 ++ [EvFrame 1 FrDh6Sol; EvPadt 0; EvFrame 1 FrDh6Sol; EvPadt 1].
-Example C03_teardown_leak_refuted :
-  let head := mkVr true false true true true false in
+Example C03_teardown_leak_pre_277708f_refuted :
+  let head := pre_277708f false in
   free6 (fst (run head (init3 2 1 16) ev_relate)) = (1, 15) /\
   option_map leaks (nth_error (sl (fst (run head (init3 2 1 16) ev_relate))) 1) = Some true /\
   free6 (fst (run (mkV true false) (init3 2 1 16) ev_relate)) = (1, 16) /\
   option_map leaks (nth_error (sl (fst (run (mkV true false) (init3 2 1 16) ev_relate))) 1) = Some false.
 Proof. intros head. repeat match goal with |- _ /\ _ => split end; timeout 20 (vm_compute; reflexivity). Qed.
-Print Assumptions C03_teardown_leak_refuted.
+Print Assumptions C03_teardown_leak_pre_277708f_refuted.
+
+(* C03_teardown_no_leak_partial (GateLeak.v).  [v6ok]: per IPv6 family the session has taken nothing, or exactly one
+   address / prefix which the AllocCtx knows and which s.IPv6Address / s.IPv6Prefix or a provider lease that knows its pool
+   refers to.  PROVED, from EVERY state, every variant with [vnm] (277708f): (1) whoever satisfies it gets back from
+   terminate + ReleaseLease exactly what it took ([xn = released], the IPv6 part of [leaks] = false); (2) every event
+   preserves it for every slot — PADR, every frame incl. DHCPv6 SOLICIT / REQUEST with late resolution and re-reservation,
+   timers, PADT, dead peer, reject, dataplane completion / failure — PROVIDED every allowed AAA answer that takes effect
+   hits a session without IPv6 lease state ([fresh_accepts]); (3) hence over histories under that proviso at each step.
+   MISSING for the unconditional theorem: [fresh_accepts] itself, i.e. "a live session that has been accepted is still in
+   Network/Open" (an accept needs Authenticate: C03_aaa_correlation + GI.gi_pend; with [vtd] a link that leaves Opened is
+   torn down), which needs (a) a phase lemma "in Network/Open with LCP Opened, a handler either stays there or emits
+   GLcpDown" for lcp_apply / ncp_apply / every frame, (b) "Timeout in LCP Opened does nothing", (c) "the accept ends in
+   Network/Open", threaded with GateInv.Inv through GateMain.step_Inv. *)
+Theorem C03_teardown_no_leak_partial :
+  (forall s, v6ok (v6 s) ->
+     xn (na (v6 s)) = released (na (v6 s)) /\ xn (pd (v6 s)) = released (pd (v6 s))) /\
+  (forall v st e, vnm v = true -> all_ok st -> fresh_accepts v st e -> all_ok (fst (step v st e))) /\
+  (forall v evs pool p6 ppd, vnm v = true -> fresh_run v (init3 pool p6 ppd) evs ->
+     all_ok (fst (run v (init3 pool p6 ppd) evs))).
+Proof. exact GateLeak.teardown_no_leak_partial. Qed.
+Print Assumptions C03_teardown_no_leak_partial.
 
 (* C03_renegotiation_reauth.  Split any history at a point where slot i's monitor holds no accept (mn1; in
    particular right after LCP left Opened, [C03_lcp_down_clears_accept]).  If in the continuation no allowed AAA
